@@ -35,6 +35,9 @@ Grid2D, Grid3D) are emitted; every other class must produce IDENTICAL arrays (el
   values      symbolic integer (tnum.Poly in the cell counts); real scalar (expression over L_a, f_a[index], casts);
               1-D array = list of BLOCKS (symbolic length, position ↦ entry), integer or real; ghosted cell-number grid;
               integer list (`np.array([Nx, Ny], dtype=int)`), tuple, list, dict of strings, object with attributes
+  helpers     module functions and methods are CALLED by this interpreter anyway (own argument binding, last binding of
+              the name in module order, a decorated definition is refused), so an extracted helper such as
+              `def _midpoints(f): return 0.5*(f[1:]+f[0:-1])` is executed like `_facelocation_to_cellsize`
   statements  assignments (names, tuples of names, `self.attr`), `if` with a test decided from the calling form
               (`len(args) == 2`, `isinstance(args[0], np.ndarray)`, `len(args) not in (dim, 2*dim)`, comparisons of
               symbolic integers), `raise`, `return`, calls of module functions / methods / classes / `super()`; an
